@@ -8,3 +8,11 @@ import ParryModel.C15.Theorems
 #print axioms C15.point_in_poly2d_iff
 #print axioms C15.corner_direction_spec
 #print axioms C15.is_point_in_triangle_iff
+#print axioms C15.sum_area2_edges
+#print axioms C15.point_in_convex_poly2d_ccw
+#print axioms C15.crossingNumber_rotate
+#print axioms C15.point_in_poly2d_rotate
+#print axioms C15.polyEdges_reverse_perm
+#print axioms C15.crosses_symm
+#print axioms C15.crossingNumber_reverse
+#print axioms C15.point_in_poly2d_reverse
